@@ -29,9 +29,10 @@ type mgrNode struct {
 	NoChan   bool   `json:"nochan,omitempty"`   // no replication channel: claims to be a master
 	Writable bool   `json:"writable,omitempty"` // read_only = 0
 	Stopped  bool   `json:"stopped,omitempty"`  // replication threads stopped
+	Dubious  bool   `json:"dubious,omitempty"`  // answers every ping of the manager with 1040 (too many connections); its own mysync reports it healthy
 	Health   string `json:"health,omitempty"`   // "" = what a health checker would write | missing | pingfail | fsro | crash | oldformat
 	Prio     int64  `json:"prio,omitempty"`
-	Cut      bool   `json:"cut,omitempty"` // the manager cannot reach this (running) server; its own mysync can
+	Cut      bool   `json:"cut,omitempty"`      // the manager cannot reach this (running) server; its own mysync can
 	Offline  bool   `json:"offline,omitempty"`  // offline_mode = ON
 	ReadOnly bool   `json:"readonly,omitempty"` // the master is read-only
 	ROOnly   bool   `json:"ro_only,omitempty"`  // ... with read_only = 1 but super_read_only = 0 (an operator's SET, a fence set under another configuration)
@@ -47,8 +48,9 @@ type mgrSwitch struct {
 	Cause        string
 	Transition   string // failover | switchover | ""
 	RunCount     int
-	InitiatedAgo int // seconds; -1 = zero time
-	Failed       bool // carries a failed result from an earlier attempt
+	InitiatedAgo int    // seconds; -1 = zero time
+	Failed       bool   // carries a failed result from an earlier attempt
+	StartedBy    string `json:",omitempty"` // started (no result yet) by this host's process, which did not live to finish it
 }
 type mgrLast struct {
 	Cause       string
@@ -56,72 +58,72 @@ type mgrLast struct {
 	NoResult    bool
 }
 type mgrCfg struct {
-	Failover      bool `json:"failover"`
-	Delay         int  `json:"delay_s"`
-	Cooldown      int  `json:"cooldown_s"`
-	Timeout       int  `json:"timeout_s"`
-	MaxAttempts   int  `json:"max_attempts"`
-	ResetupCrashed bool `json:"resetup_crashed"`
-	SemiSync      bool `json:"semisync"`
+	Failover         bool `json:"failover"`
+	Delay            int  `json:"delay_s"`
+	Cooldown         int  `json:"cooldown_s"`
+	Timeout          int  `json:"timeout_s"`
+	MaxAttempts      int  `json:"max_attempts"`
+	ResetupCrashed   bool `json:"resetup_crashed"`
+	SemiSync         bool `json:"semisync"`
 	DisableSSOnMaint bool `json:"disable_ss_on_maint"`
 }
 type mgrEvent struct {
-	At     int    `json:"at"` // before iteration At (0-based)
-	Kind   string `json:"kind"` // down | up | health | abort | maint | nomaint | switch | master | dereg | maintfile
-	Host   int    `json:"host,omitempty"`
-	Health string `json:"health,omitempty"`
+	At     int        `json:"at"`   // before iteration At (0-based)
+	Kind   string     `json:"kind"` // down | up | health | abort | maint | nomaint | switch | master | dereg | maintfile
+	Host   int        `json:"host,omitempty"`
+	Health string     `json:"health,omitempty"`
 	Maint  *mgrMaint  `json:"maint,omitempty"`
 	Switch *mgrSwitch `json:"switch,omitempty"`
-	Master string `json:"master,omitempty"`
-	Lag    int    `json:"lag,omitempty"` // demote: the new source
+	Master string     `json:"master,omitempty"`
+	Lag    int        `json:"lag,omitempty"` // demote: the new source
 }
 type mgrIn struct {
-	Nodes     []mgrNode  `json:"nodes"`
-	Master    string     `json:"master"` // recorded master: "h1" | "" (missing) | any name
-	Active    []string   `json:"active"` // nil = key missing
-	Maint     *mgrMaint  `json:"maint"`
-	Switch    *mgrSwitch `json:"switch"`
-	Last      *mgrLast   `json:"last"`
-	Cfg       mgrCfg     `json:"cfg"`
-	Iter      int        `json:"iter"`
-	Gap       int        `json:"gap_s"`
-	Events    []mgrEvent `json:"events"`
-	Fault     *vk.Fault  `json:"fault"`
-	DcsFault  *memFault  `json:"dcs_fault"`
-	FaultAt   int        `json:"fault_at"` // iteration the faults apply to
-	MaintFile bool       `json:"maint_file"`
-	AbortAtStmt int      `json:"abort_at_stmt"` // >0: the operator deletes the switch key when the n-th mutating statement of the iteration arrives
-	LockLostAt int       `json:"lock_lost_at"`  // -1 never; k: the k-th AcquireLock of iteration FaultAt returns false
-	MgrHost    int        `json:"mgr_host,omitempty"` // the process under test runs on h<MgrHost> (0 = the last host)
-	Start      string     `json:"start,omitempty"` // state the process starts in: "" = Manager | Candidate | Maintenance | FirstRun
-	OtherManager bool     `json:"other_manager,omitempty"` // the manager lock is held by another process
-	OptReg     []string   `json:"opt_reg,omitempty"` // hosts with an entry in the optimisation registry (registered or not)
-	RaceSwitch *mgrSwitch `json:"race_switch,omitempty"` // a second initiator files this request while iteration FaultAt is reading last_switch (between the manager's look and its own filing)
+	Nodes        []mgrNode  `json:"nodes"`
+	Master       string     `json:"master"` // recorded master: "h1" | "" (missing) | any name
+	Active       []string   `json:"active"` // nil = key missing
+	Maint        *mgrMaint  `json:"maint"`
+	Switch       *mgrSwitch `json:"switch"`
+	Last         *mgrLast   `json:"last"`
+	Cfg          mgrCfg     `json:"cfg"`
+	Iter         int        `json:"iter"`
+	Gap          int        `json:"gap_s"`
+	Events       []mgrEvent `json:"events"`
+	Fault        *vk.Fault  `json:"fault"`
+	DcsFault     *memFault  `json:"dcs_fault"`
+	FaultAt      int        `json:"fault_at"` // iteration the faults apply to
+	MaintFile    bool       `json:"maint_file"`
+	AbortAtStmt  int        `json:"abort_at_stmt"`           // >0: the operator deletes the switch key when the n-th mutating statement of the iteration arrives
+	LockLostAt   int        `json:"lock_lost_at"`            // -1 never; k: the k-th AcquireLock of iteration FaultAt returns false
+	MgrHost      int        `json:"mgr_host,omitempty"`      // the process under test runs on h<MgrHost> (0 = the last host)
+	Start        string     `json:"start,omitempty"`         // state the process starts in: "" = Manager | Candidate | Maintenance | FirstRun
+	OtherManager bool       `json:"other_manager,omitempty"` // the manager lock is held by another process
+	OptReg       []string   `json:"opt_reg,omitempty"`       // hosts with an entry in the optimisation registry (registered or not)
+	RaceSwitch   *mgrSwitch `json:"race_switch,omitempty"`   // a second initiator files this request while iteration FaultAt is reading last_switch (between the manager's look and its own filing)
 }
 
 type mgrStep struct {
-	Trans     []vk.Entry
-	Next      appState
-	Panic     string
-	PanicSite string
-	MemBefore string
-	HostsBefore string
+	Trans        []vk.Entry
+	Next         appState
+	Panic        string
+	PanicSite    string
+	MemBefore    string
+	HostsBefore  string
 	FailedBefore map[string]int64
 	FailedAfter  map[string]int64
-	Files     map[string]bool // maintenance/emerge file before
-	FilesAfter map[string]bool
-	T0        int64
-	Tree      map[string]string // selected keys before
-	TreeAfter map[string]string
-	WorldBefore map[string]vk.Node
-	WorldAfter  map[string]vk.Node
-	Health    map[string]*nodestate.NodeState
-	LockHeld  bool
-	Restarted bool // a fresh manager process runs this iteration
-	CutNow    map[string]bool // hosts the manager cannot reach in this iteration
-	Raced     bool            // the second initiator got its request in during this iteration
-	State     appState        // which state handler ran
-	Connected bool
+	Files        map[string]bool // maintenance/emerge file before
+	FilesAfter   map[string]bool
+	T0           int64
+	Tree         map[string]string // selected keys before
+	TreeAfter    map[string]string
+	WorldBefore  map[string]vk.Node
+	WorldAfter   map[string]vk.Node
+	Health       map[string]*nodestate.NodeState
+	LockHeld     bool
+	Restarted    bool            // a fresh manager process runs this iteration
+	CutNow       map[string]bool // hosts the manager cannot reach in this iteration
+	Raced        bool            // the second initiator got its request in during this iteration
+	State        appState        // which state handler ran
+	Connected    bool
 }
 type mgrOut struct {
 	Steps []mgrStep
@@ -144,6 +146,9 @@ func (s *mgrSwitch) toSwitchover(now time.Time) Switchover {
 		sw.Result = &SwitchoverResult{Ok: false, Error: "earlier attempt failed", FinishedAt: now.Add(-time.Second)}
 		sw.StartedBy, sw.StartedAt = "h9", now.Add(-2*time.Second)
 	}
+	if s.StartedBy != "" {
+		sw.StartedBy, sw.StartedAt = s.StartedBy, now.Add(-2*time.Second)
+	}
 	return sw
 }
 
@@ -153,9 +158,18 @@ func mgrHealth(app *App, w *vk.World, h string, kind string) *nodestate.NodeStat
 	cut := w.Partition[app.config.Hostname]
 	w.Partition[app.config.Hostname] = nil
 	w.Mu.Unlock()
+	pe := 0
+	w.Mu.Lock()
+	if n := w.Nodes[h]; n != nil {
+		pe, n.PingErrno = n.PingErrno, 0 // its own mysync connects locally
+	}
+	w.Mu.Unlock()
 	ns := app.getNodeState(h)
 	w.Mu.Lock()
 	w.Partition[app.config.Hostname] = cut
+	if n := w.Nodes[h]; n != nil {
+		n.PingErrno = pe
+	}
 	w.Mu.Unlock()
 	if cut != nil && cut[h] {
 		w.Mu.Lock()
@@ -250,6 +264,9 @@ func mgrRun(in mgrIn) mgrOut {
 		} else {
 			n.RO, n.SuperRO = !c.Writable, !c.Writable
 			n.Chan = &vk.Chan{Source: "h1", IO: !c.Stopped, SQL: !c.Stopped}
+			if c.Dubious {
+				n.PingErrno = 1040
+			}
 			n.Retrieved = n.Executed
 			n.SSSlave, n.SSSlaveEffective = in.Cfg.SemiSync, in.Cfg.SemiSync
 			lag := c.Lag
